@@ -18,6 +18,7 @@
 #include <cstdlib>
 #endif
 #include <algorithm>
+#include <deque>
 #include <chrono>
 #include <cmath>
 #include <functional>
@@ -1558,8 +1559,25 @@ namespace bloch::runtime {
     void RuntimeEvaluator::markObject(const std::shared_ptr<Object>& obj) {
         if (!obj || obj->marked)
             return;
+        // with a work list, not by recursion: a linked list is as deep as it is long
+        std::vector<Object*> work{obj.get()};
         obj->marked = true;
-        for (const auto& field : obj->fields) markValue(field);
+        while (!work.empty()) {
+            Object* cur = work.back();
+            work.pop_back();
+            auto visit = [&work](const std::shared_ptr<Object>& o) {
+                if (o && !o->marked) {
+                    o->marked = true;
+                    work.push_back(o.get());
+                }
+            };
+            for (const auto& field : cur->fields) {
+                if (field.type == Value::Type::Object)
+                    visit(field.objectValue);
+                else if (field.type == Value::Type::ObjectArray)
+                    for (const auto& o : field.objectArray) visit(o);
+            }
+        }
     }
 
     void RuntimeEvaluator::markValue(const Value& v) {
@@ -1697,6 +1715,31 @@ namespace bloch::runtime {
                 outcome = bits;
             }
             m_trackedCounts[name][outcome]++;
+        }
+    }
+
+    // Called when the last reference to an object disappears. Destroying an object drops the
+    // references its fields hold, which may release further objects - along a linked list, one
+    // nested release per node. Beyond a fixed depth the nested releases are queued and carried out
+    // by the outermost one, in the same order, so that a long chain cannot exhaust the stack.
+    void RuntimeEvaluator::releaseObject(Object* obj) {
+        constexpr int kMaxNestedReleases = 200;
+        if (m_releaseDepth >= kMaxNestedReleases) {
+            m_deferredReleases.push_back(obj);
+            return;
+        }
+        auto releaseNow = [this](Object* o) {
+            ++m_releaseDepth;
+            destroyObject(o, !o->skipDestructor);
+            if (!o->escapedDestructor)
+                delete o;
+            --m_releaseDepth;
+        };
+        releaseNow(obj);
+        while (m_releaseDepth == 0 && !m_deferredReleases.empty()) {
+            Object* next = m_deferredReleases.front();
+            m_deferredReleases.pop_front();
+            releaseNow(next);
         }
     }
 
@@ -2746,11 +2789,7 @@ namespace bloch::runtime {
                 throw BlochError(ErrorCategory::Runtime, newExpr->line, newExpr->column,
                                  "cannot instantiate static or abstract class '" + cls->name + "'");
             }
-            auto deleter = [this](Object* obj) {
-                destroyObject(obj, !obj->skipDestructor);
-                if (!obj->escapedDestructor)
-                    delete obj;
-            };
+            auto deleter = [this](Object* obj) { releaseObject(obj); };
             auto obj = std::shared_ptr<Object>(new Object{}, deleter);
             obj->cls = cls;
             obj->owner = this;
